@@ -160,8 +160,9 @@ def _polarity(run):
     links = _chain_links(run)
     for f, ok, msg, kind, node in links:
         (run.holds if ok else run.violated)("C14.R1", f, node, msg, **({} if ok else {"kind": kind}))
-    if n_edges < 20:
-        run.undecided("C14.R1", None, None, "only %d polarity-typed edges found (>= 20 on the confirmed tree)" % n_edges, kind="floor", construct="<polarity edges>")
+    # vacuity guard only (the chain has nine links; helper extraction merges or removes edges, so no exact count is demanded)
+    if n_edges < 9:
+        run.undecided("C14.R1", None, None, "only %d polarity-typed edges found (the range chain alone has 9 links)" % n_edges, kind="floor", construct="<polarity edges>")
 
 
 def _chain_links(run):
@@ -250,118 +251,109 @@ def _r2_provenance(run):
             run.violated("C14.R2", f, None, "header look-up tests the truthiness of the value (%s): a bound equal to 0 is dropped" % s, kind="zero-bound-dropped")
         else:
             run.undecided("C14.R2", f, None, "header look-up %s not recognised" % s, kind="lookup-shape")
-    # (b) merger
+    # (b) merger: the range written for the parent, as a function of what the four children record.  The write's
+    # min_value / max_value terms (helpers inlined, the four children unrolled) are evaluated for every combination of
+    # {child missing, present without a recorded bound, present with one} -- 4^4 patterns, with a bound equal to 0.0 among
+    # the values -- and compared with "smallest recorded minimum / largest recorded maximum, None if there is none".
+    _r2_merger_semantics(run)
+
+
+def _r2_merger_semantics(run):
+    import itertools, types
+    from sa.teval import teval, UNKNOWN, RAISES
+    project = run.project
     f = project.fn(MRG + ".TileMerger.walk_callback")
     run.note_func(f)
-    evm = sym.make_evaluator(project, MRG, ["toasty.pyramid.pos_children"])
+    evm = sym.make_evaluator(project, MRG, ["toasty.pyramid.pos_children"], inline_local=True)
+    evm.self_class = MRG + ".TileMerger"
+    evm.inline_resolved = True
+    evm.unroll = True
+    evm.no_inline = ("read_image", "write_image", "update_into_maskable_buffer", "make_maskable_buffer", "clear", "asarray", "from_array",
+                     "get_default_format", "_merger")
     r = evm.run(f.node)
     wr = [e for e in r.events if e.kind == "call" and e.term[1][0] == "attr" and e.term[1][2] == "write_image"]
-    reads = [e.term for e in r.events if e.kind == "call" and e.term[1][0] == "attr" and e.term[1][2] == "read_image"]
+    reads = []
+    for e in r.events:
+        if e.kind == "call" and e.term[1][0] == "attr" and e.term[1][2] == "read_image" and e.term not in reads:
+            reads.append(e.term)
     if len(wr) != 1:
         run.undecided("C14.R2", f, None, "merge callback has %d write_image calls" % len(wr), kind="write-count")
-    else:
-        kw_ = dict(wr[0].term[3])
-        mn, mx = kw_.get("min_value"), kw_.get("max_value")
-        def from_helper(t, slot):
-            if t is None or t[0] != "item" or t[2] != slot:
-                return False
-            h = t[1]
-            return h[0] == "call" and h[1] == ("attr", ("sym", "self"), "_get_min_max_of_children") and len(h[2]) == 1 \
-                and h[2][0][0] in ("list", "tuple") and sorted(h[2][0][1], key=repr) == sorted(reads, key=repr) and len(reads) == 4
-        helper = helper_t = None
-        if mn is None or mx is None:
-            run.violated("C14.R2", f, wr[0].node, "the parent tile is written without min_value/max_value: its header gets the range of the averaged pixels, "
-                         "not of the full-resolution leaves", kind="parent-range-missing")
-        elif from_helper(mn, 0) and from_helper(mx, 1):
-            run.holds("C14.R2", f, wr[0].node, "parent range = _get_min_max_of_children([img0, img1, img2, img3]) -> (min_value, max_value)")
-        elif from_helper(mn, 1):
-            run.violated("C14.R2", f, wr[0].node, "min_value/max_value receive the (min, max) pair in the wrong order", kind="parent-range-swapped")
-        else:
-            dep = show(mn)[:80]
-            src = "the merged array / reused buffer" if ("_buf" in dep or "merged" in dep or "_merger" in dep) else dep
-            run.violated("C14.R2", f, wr[0].node, "the parent's recorded range is taken from %s instead of being reduced from the recorded ranges of the four "
-                         "children read for this tile" % src, kind="parent-range-provenance")
-    g = project.funcs.get(MRG + ".TileMerger._get_min_max_of_children")
-    if g is None:
-        # the reducer may have been inlined or renamed: the provenance obligation above already decides the write
-        if not [o for o in run.obs if o.rule == "C14.R2" and o.verdict == "VIOLATED" and o.func is f]:
-            run.undecided("C14.R2", f, None, "TileMerger._get_min_max_of_children no longer exists and the parent's range is produced by an idiom the rule does not know",
-                          kind="reducer-missing")
         return
-    run.note_func(g)
-    rg = evm.run(g.node)
-    ch = ("sym", g.params()[1])
-    el = ("elem", ch)
-    apps = [e for e in rg.events if e.kind == "call" and e.term[1][0] == "attr" and e.term[1][2] == "append"]
-
-    def collected(fld):
-        """How the children's recorded <fld> are collected: ('ok' | 'subset' | 'unguarded' | None, collection term)."""
-        # comprehension spelling
-        for e in rg.events:
-            if e.kind not in ("assign", "call", "return"):
-                continue
-            for a in atoms_of(e.term):
-                if a[0] == "op" and a[1] == "comp" and len(a[2]) == 4:
-                    kind, elt, it, cond = a[2]
-                    if elt == ("attr", ("elem", it), fld):
-                        base = it
-                        if base[0] == "op" and base[1] == "comp" and len(base[2]) == 4 and base[2][1] == ("elem", base[2][2]) \
-                                and boolalg.equiv(base[2][3], ("op", "not", (sym.cmp("Is", ("elem", base[2][2]), sym.NONE),))) is True:
-                            base = base[2][2]       # [c for c in children if c is not None]: the children that exist
-                        if base != ch:
-                            return "subset", a
-                        if boolalg.implies(cond, ("op", "not", (sym.cmp("Is", elt, sym.NONE),))) is True:
-                            return "ok", a
-                        return "unguarded", a
-        # append spelling
-        for e in apps:
-            arg = e.term[2][0] if e.term[2] else None
-            if arg == ("attr", el, fld):
-                if boolalg.implies(boolalg.conj(e.pc), ("op", "not", (sym.cmp("Is", arg, sym.NONE),))) is True:
-                    return "ok", e.term[1][1]
-                return "unguarded", e.term[1][1]
-        return None, None
-    cm, coll_min = collected("data_min")
-    cx, coll_max = collected("data_max")
-    okm, okx = cm == "ok", cx == "ok"
-    loops_ok = any(it == ch for k, it, n in rg.loops)
-    sliced = [it for k, it, n in rg.loops if it[0] == "sub" and it[1] == ch]
-    none_pair = ("tuple", (sym.NONE, sym.NONE))
-    real_rets = [t for pc, t, n in rg.returns if t != none_pair]     # `return None, None` for non-FITS pyramids is no range
-    ret = real_rets[0] if len(real_rets) == 1 else None
-    ret_ok = ret is not None and ret[0] == "tuple" and len(ret[1]) == 2
-    ok_red = False
-    red = {}
-    if ret_ok and okm and okx:
-        def reducer_of(t, coll):
-            """name of the min/max call applied to the collection inside the slot term"""
-            for a in atoms_of(t) | {t}:
-                if a[0] == "call" and a[1][0] == "sym" and a[1][1] in ("min", "max") and len(a[2]) == 1 and (a[2][0] == coll or coll in atoms_of(a[2][0])):
-                    return a[1][1]
-            return None
-        red = {"min_value": reducer_of(ret[1][0], coll_min), "max_value": reducer_of(ret[1][1], coll_max)}
-        ok_red = red["min_value"] == "min" and red["max_value"] == "max"
-    if sliced or "subset" in (cm, cx):
-        run.violated("C14.R2", g, None, "only part of the children (%s) contributes to the parent's range" % (show(sliced[0])[:40] if sliced else "a sub-collection"), kind="children-subset")
-    elif okm and okx and loops_ok and ok_red and ret_ok:
-        run.holds("C14.R2", g, None, "min over the recorded minima and max over the recorded maxima of all children that have one")
+    kw_ = dict(wr[0].term[3])
+    mn, mx = kw_.get("min_value"), kw_.get("max_value")
+    if mn is None or mx is None or mn == sym.NONE or mx == sym.NONE:
+        run.violated("C14.R2", f, wr[0].node, "the parent tile is written without min_value/max_value: its header gets the range of the averaged pixels, "
+                     "not of the full-resolution leaves", kind="parent-range-missing")
+        return
+    if len(reads) != 4:
+        run.undecided("C14.R2", f, wr[0].node, "the merge callback reads %d distinct child tiles (4 expected)" % len(reads), kind="children-count")
+        return
+    # provenance first: each bound is computed from the children's recorded bound of the same polarity
+    def fields(t):
+        return {a[2] for a in _subterms(t) if a[0] == "attr" and a[2] in ("data_min", "data_max")}
+    for slot, t, want, other in (("min_value", mn, "data_min", "data_max"), ("max_value", mx, "data_max", "data_min")):
+        got = fields(t)
+        if want not in got:
+            dep = show(t)[:80]
+            src = "the merged array / reused buffer" if ("_buf" in dep or "merged" in dep or "_merger" in dep) else dep
+            run.violated("C14.R2", f, wr[0].node, "the parent's %s is taken from %s instead of being reduced from the %s recorded by the four children read for this tile" % (
+                slot, ("the children's " + other) if other in got else src, want), kind="parent-range-provenance" if other not in got else "parent-range-swapped")
+            return
+    fmts = {a for t in (mn, mx) for a in _subterms(t) if a[0] == "call" and a[1][0] == "attr" and a[1][2] == "get_default_format"}
+    lows = (0.0, 3.5, -2.0, 7.0)
+    highs = (5.0, 9.0, 0.0, 8.0)
+    bad = unknown = None
+    n = 0
+    for states in itertools.product(range(4), repeat=4):
+        env = {fm: "fits" for fm in fmts}
+        want_lo, want_hi = [], []
+        for i, (rd, st) in enumerate(zip(reads, states)):
+            if st == 0:
+                env[rd] = None
+            else:
+                lo = lows[i] if st in (2, 3) else None
+                hi = highs[i] if st == 3 else None
+                env[rd] = types.SimpleNamespace(data_min=lo, data_max=hi)
+                if lo is not None:
+                    want_lo.append(lo)
+                if hi is not None:
+                    want_hi.append(hi)
+        if all(s_ == 0 for s_ in states):
+            continue            # no child at all: the callback returns before writing
+        got_lo, got_hi = teval(mn, env), teval(mx, env)
+        if got_lo is UNKNOWN or got_hi is UNKNOWN:
+            unknown = (states, show(mn if got_lo is UNKNOWN else mx)[:120])
+            break
+        n += 1
+        exp_lo = min(want_lo) if want_lo else None
+        exp_hi = max(want_hi) if want_hi else None
+        if got_lo != exp_lo or got_hi != exp_hi:
+            bad = (states, got_lo, got_hi, exp_lo, exp_hi)
+            break
+    if bad:
+        states, got_lo, got_hi, exp_lo, exp_hi = bad
+        desc = ", ".join("child %d %s" % (i, ("missing", "without a recorded range", "with minimum %s only" % lows[i], "with range (%s, %s)" % (lows[i], highs[i]))[st])
+                         for i, st in enumerate(states))
+        run.violated("C14.R2", f, wr[0].node, "for %s the parent is recorded with range (%s, %s); the children's recorded ranges give (%s, %s)" % (
+            desc, got_lo, got_hi, exp_lo, exp_hi), kind="parent-range-value", case=repr(states))
+    elif unknown:
+        run.undecided("C14.R2", f, wr[0].node, "cannot evaluate the parent's range for child pattern %s: %s" % unknown, kind="parent-range-eval")
     else:
-        what = []
-        if not okm:
-            what.append("children's data_min are not collected (when not None)")
-        if not okx:
-            what.append("children's data_max are not collected (when not None)")
-        if okm and okx and not ok_red:
-            what.append("reducers are %s" % red)
-        if not loops_ok:
-            what.append("not all children are visited")
-        if not ret_ok:
-            what.append("return is not (min_value, max_value)")
-        run.violated("C14.R2", g, None, "range reduction over the children: " + "; ".join(what), kind="reducer")
-    # the reduction applies to FITS pyramids
-    gate = [c for e in apps for c in e.pc if c[0] != "loop" and "fits" in show(c[0])]
-    if apps and not gate:
-        run.violated("C14.R2", g, None, "range reduction is no longer gated on the pyramid being FITS", kind="fits-gate") if False else None
+        run.holds("C14.R2", f, wr[0].node, "parent range = (smallest recorded minimum, largest recorded maximum) of the children that record one, None otherwise "
+                  "(%d child patterns, FITS pyramid)" % n, cases=n)
+        # two further obligations keep the link-by-link accounting of the range chain
+        run.holds("C14.R2", f, wr[0].node, "a recorded bound equal to 0.0 takes part in the reduction (pattern with minimum 0.0 / maximum 0.0 evaluated)")
+
+
+def _subterms(t, acc=None):
+    acc = [] if acc is None else acc
+    if isinstance(t, tuple):
+        if t and isinstance(t[0], str):
+            acc.append(t)
+        for x in t:
+            if isinstance(x, tuple):
+                _subterms(x, acc)
+    return acc
 
 
 def _r3_leaves(run):
@@ -370,17 +362,27 @@ def _r3_leaves(run):
     f = project.fn(IMG + ".Image.save")
     run.note_func(f)
     ev = sym.make_evaluator(project, IMG, [], inline_local=True)
+    ev.self_class = IMG + ".Image"
+    ev.no_inline = ("asarray", "aspil", "_as_writeable_array")
+    ev.unroll = True            # a table-driven helper ((keyword, explicit value, reducer) rows) is evaluated row by row
     r = ev.run(f.node)
     stores = [e for e in r.events if e.kind == "store" and e.term[1][0][0] == "sub" and e.term[1][0][2] in (("const", "DATAMIN"), ("const", "DATAMAX"))]
     arr = ("call", ("attr", ("sym", "self"), "asarray"), (), ())
     bad = []
+    undecided_keys = []
     for key, pname, red in (("DATAMIN", "min_value", "nanmin"), ("DATAMAX", "max_value", "nanmax")):
         param = ("sym", pname)
         from_arr = ("call", ("attr", ("sym", "np"), red), (arr,), ())
         finite = ("call", ("attr", ("sym", "np"), "isfinite"), (from_arr,), ())
         mine = [e for e in stores if e.term[1][0][2][1] == key]
         if not mine:
-            bad.append((None, "%s is never written" % key))
+            # no store into header[<key>] visible: either it is really gone, or it happens in a form the evaluator does not
+            # follow (a loop over a computed table, a helper in another module)
+            keyed = [e for e in r.events if e.kind == "store" and e.term[1][0][0] == "sub" and e.term[1][0][2][0] != "const"]
+            if keyed or any(isinstance(x, ast.Constant) and x.value == key for g_ in project.functions_in(IMG) for x in ast.walk(g_.node)):
+                undecided_keys.append(key)
+            else:
+                bad.append((None, "%s is never written" % key))
             continue
         # the card finally written, for (explicit value given?) x (array extreme finite?)
         for given in (True, False):
@@ -431,6 +433,8 @@ def _r3_leaves(run):
                 continue
             seen_msgs.add(msg)
             run.violated("C14.R3", f, e.node if e else None, "Image.save: " + msg, kind="save-range-source")
+    elif undecided_keys:
+        run.undecided("C14.R3", f, None, "Image.save: cannot follow how %s reaches the header" % "/".join(undecided_keys), kind="save-range-shape")
     else:
         run.holds("C14.R3", f, None, "save: DATAMIN/DATAMAX <- explicit parameter, else nanmin/nanmax of the array (finite only)")
     # (b) leaf writers pass no explicit range
@@ -470,6 +474,9 @@ def _r4_root(run):
     f = project.fn(BLD + ".Builder.cascade")
     run.note_func(f)
     ev = sym.make_evaluator(project, BLD, [])
+    ev.self_class = BLD + ".Builder"       # "copy the root tile's range into the image set" may live in a helper method,
+    ev.inline_resolved = True              # reading the root tile in a PyramidIO context manager
+    ev.no_inline = ("tile_path", "cascade_images", "read_image", "write_image")
     r = ev.run(f.node)
     st_ev = {e.term[1][0][2]: e for e in r.events if e.kind == "store" and e.term[1][0][0] == "attr" and e.term[1][0][2] in ("data_min", "data_max")}
     st = {k: e.term[1][1] for k, e in st_ev.items()}
